@@ -15,19 +15,62 @@ import (
 	"time"
 
 	"github.com/skx/evalfilter/v2/code"
+	"github.com/skx/evalfilter/v2/object"
 	"github.com/skx/evalfilter/v2/vm"
 )
 
 type traceEvent struct {
-	E    string `json:"e"`
-	P    int    `json:"p,omitempty"`
-	FD   int    `json:"fd"`
-	Body string `json:"body,omitempty"`
-	IP   int    `json:"ip"`
-	Op   int    `json:"op"`
-	Arg  int    `json:"arg"`
-	SD   int    `json:"sd"`
-	OK   bool   `json:"ok"`
+	E    string          `json:"e"`
+	P    int             `json:"p,omitempty"`
+	FD   int             `json:"fd"`
+	Body string          `json:"body,omitempty"`
+	IP   int             `json:"ip"`
+	Op   int             `json:"op"`
+	Arg  int             `json:"arg"`
+	SD   int             `json:"sd"`
+	OK   bool            `json:"ok"`
+	Tos  json.RawMessage `json:"tos,omitempty"` // the value on top of the frame's stack before the instruction
+}
+
+var unknownVal = json.RawMessage(`["U"]`)
+
+// encodeObject renders an implementation object in the value encoding of the specification,
+// or ["U"] where the trace specification does not follow the value (floats, hashes, regexps, big things)
+func encodeObject(o object.Object, depth int) json.RawMessage {
+	switch v := o.(type) {
+	case *object.Integer:
+		if v.Value > 1000000000 || v.Value < -1000000000 {
+			return unknownVal
+		}
+		return json.RawMessage(fmt.Sprintf(`["I",%d]`, v.Value))
+	case *object.String:
+		rs := []rune(v.Value)
+		if len(rs) > 40 {
+			return unknownVal
+		}
+		cps := make([]string, len(rs))
+		for i, r := range rs {
+			cps[i] = strconv.Itoa(int(r))
+		}
+		return json.RawMessage(`["S",[` + strings.Join(cps, ",") + `]]`)
+	case *object.Boolean:
+		return json.RawMessage(fmt.Sprintf(`["B",%v]`, v.Value))
+	case *object.Null:
+		return json.RawMessage(`["N"]`)
+	case *object.Array:
+		if len(v.Elements) > 6 || depth > 2 {
+			return unknownVal
+		}
+		parts := make([]string, len(v.Elements))
+		for i, e := range v.Elements {
+			parts[i] = string(encodeObject(e, depth+1))
+			if parts[i] == string(unknownVal) {
+				return unknownVal
+			}
+		}
+		return json.RawMessage(`["A",[` + strings.Join(parts, ",") + `]]`)
+	}
+	return unknownVal
 }
 
 // tracer is attached to one machine
@@ -64,7 +107,11 @@ func init() {
 			panic("verif: still dispatching instructions 2000 steps after the cancellation")
 		}
 		body := t.names[bytecodeIdentity(m.VerifBytecode())]
-		t.events = append(t.events, traceEvent{E: "step", FD: m.VerifCalls(), Body: body, IP: ip, Op: int(op), Arg: arg, SD: m.VerifStackDepth()})
+		tos := unknownVal
+		if top := m.VerifStackTop(); top != nil {
+			tos = encodeObject(top, 0)
+		}
+		t.events = append(t.events, traceEvent{E: "step", FD: m.VerifCalls(), Body: body, IP: ip, Op: int(op), Arg: arg, SD: m.VerifStackDepth(), Tos: tos})
 		if (t.cancelAt > 0 && t.n == t.cancelAt) || (t.limit > 0 && t.n == t.limit) {
 			t.events = append(t.events, traceEvent{E: "cancel"})
 			t.ctx.cancel()
